@@ -30,7 +30,9 @@
 //! Output of a table op:
 //! `ok v=<version> nrid=<next_row_id> mfid=<max_fragment_id|none> meta=<per fragment: id[rid[x],…]> scan=<ordered scan:
 //! cells…,_rowid,_rowaddr>` or `err <kind>`; of `assign`: `ok nrid=<next_row_id> ids=<ids>|<ids>…` or `err internal`.
-//! `err parse`, `err no_table`, `err no_version`, `err stale_unsupported`, `err width`, `err keys`, `err ambiguous` are decided
+//! `err parse`, `err no_table`, `err no_version`, `err stale_unsupported`, `err width`, `err keys`, `err ambiguous`, `err ids`
+//! (assign: ids not below n or repeated), `err empty_target` (upsert when the version read shows no row: lance then writes
+//! the new rows in hash-join order) are decided
 //! by the interpreter alone, identically on both sides.
 //!
 //! Oracle (independent of the Lean model), after every step that published a version:
@@ -524,30 +526,32 @@ impl C18 {
     fn gen_assign(rng: &mut Rng) -> Vec<String> {
         let mut lines = vec![];
         for _ in 0..(2 + rng.usize(4)) {
-            let n = rng.usize(12);
+            // next_row_id of the scratch table; ids a fragment already carries were handed out earlier: below it, distinct
+            let n = 6 + rng.usize(30);
             let nf = 1 + rng.usize(4);
-            let mut next_existing = rng.below(40);
+            let mut pool: Vec<u64> = (0..n as u64).collect();
+            for i in (1..pool.len()).rev() {
+                pool.swap(i, rng.usize(i + 1));
+            }
+            let mut take = |k: usize, sorted: bool| -> Vec<u64> {
+                let k = k.min(pool.len());
+                let mut v: Vec<u64> = pool.drain(..k).collect();
+                if sorted {
+                    v.sort();
+                }
+                v
+            };
             let frags: Vec<RawFrag> = (0..nf)
                 .map(|_| {
                     let phys = 1 + rng.usize(6);
+                    let sorted = rng.chance(2, 3);
                     let ids = match rng.below(10) {
                         0..=2 => None,
                         3 => Some(vec![]),
-                        4..=5 => {
-                            // complete
-                            Some((0..phys as u64).map(|i| next_existing + 2 * i).collect())
-                        }
-                        6..=8 => {
-                            // partial
-                            let have = rng.usize(phys + 1);
-                            Some((0..have as u64).map(|i| next_existing + i).collect())
-                        }
-                        _ => {
-                            // excess
-                            Some((0..(phys as u64 + 1 + rng.below(2))).map(|i| next_existing + i).collect())
-                        }
+                        4..=5 => Some(take(phys, sorted)),
+                        6..=8 => Some(take(rng.usize(phys + 1), sorted)),
+                        _ => Some(take(phys + 1 + rng.usize(2), sorted)),
                     };
-                    next_existing += 20;
                     RawFrag { phys, ids }
                 })
                 .collect();
@@ -778,6 +782,13 @@ impl Prop for C18 {
             let (rv, op): (Option<Ver>, Option<Op>) = match &cmd {
                 Cmd::Assign { n, frags } => {
                     res.tags.push("op:assign".into());
+                    let all: Vec<u64> = frags.iter().flat_map(|f| f.ids.clone().unwrap_or_default()).collect();
+                    if all.iter().any(|i| *i >= *n as u64) || all.iter().collect::<BTreeSet<_>>().len() != all.len() {
+                        // ids a fragment carries were assigned earlier: below next_row_id, no id twice
+                        res.outputs.push("err ids".into());
+                        res.tags.push("err:ids".into());
+                        continue;
+                    }
                     let out = self.run_assign(*n, frags);
                     res.tags.push(if out.starts_with("ok") { "assign:ok".into() } else { format!("assign:{}", out.replace(' ', "_")) });
                     if out.starts_with("ok") && frags.iter().any(|f| matches!(&f.ids, Some(v) if !v.is_empty() && v.len() < f.phys)) {
@@ -872,7 +883,10 @@ impl Prop for C18 {
                     let w = rows[0].len();
                     let keys: Vec<Cell> = rows.iter().map(|r| r[0]).collect();
                     let distinct = keys.iter().collect::<BTreeSet<_>>().len() == keys.len();
-                    if !(w == k || (w == 2 && k == 3)) {
+                    if base.is_empty() {
+                        // merge_insert into a table without visible rows writes the new rows in hash-join order
+                        Some("empty_target")
+                    } else if !(w == k || (w == 2 && k == 3)) {
                         Some("width")
                     } else if keys.iter().any(|c| c.is_none()) || !distinct {
                         Some("keys")
